@@ -763,10 +763,15 @@ def parse_seq_nat(out):
 
 
 def shard_src(lits):
+    body = ";\n ".join(lits)
+    # unary nat literals such as 1000%N / 2000%N (max_cg_iterations, min_preconditioning_size ...) are elaborated once, not per case
+    big = sorted({int(m) for m in re.findall(r"\b(\d+)%N", body) if int(m) >= 32})
+    body = re.sub(r"\b(\d+)%N", lambda m: ("k_%s" % m.group(1)) if int(m.group(1)) >= 32 else m.group(0), body)
+    consts = "".join("Definition k_%d : nat := %d%%N.\n" % (n, n) for n in big)
     return ("From mathcomp Require Import ssreflect ssrfun ssrbool eqtype ssrnat seq.\n"
-            "From Coq Require Import PrimFloat.\nRequire Import C04.Model C04.Check.\n"
+            "From Coq Require Import PrimFloat.\nRequire Import C04.Model C04.Check.\n%s"
             "Definition cases : seq case := [::\n %s].\n"
-            "Eval vm_compute in (bad_cases cases 0).\n" % ";\n ".join(lits))
+            "Eval vm_compute in (bad_cases cases 0).\n" % (consts, body))
 
 
 # ----------------------------------------------------------------------------------------- serialisation (replay files)
